@@ -1,8 +1,11 @@
 #!/bin/bash
 # soak: run the named checks with a long budget against /repo (used from `vp run`); prints only summaries
-# usage: tools/soak.sh <budget seconds> <Cxx>...
+# usage: tools/soak.sh <budget seconds> <tier> <Cxx>...
 b=$1; shift
-export VERIF_BUILD=${VERIF_BUILD:-$PWD/.build} VERIF_REPLAYS=$PWD/replays VERIF_EVIDENCE=$PWD/evidence_soak
+tier=$1; shift
+export VERIF_BUILD=${VERIF_BUILD:-$PWD/.build} VERIF_REPLAYS=$PWD/replays VERIF_EVIDENCE=$PWD/evidence_soak VERIF_TRIAGE_DEADLINE=$((b + 600))
 for p in "$@"; do
-  VERIF_BUDGET=$b VERIF_SEED=${VERIF_SEED:-77} VERIF_WORKERS=${VERIF_WORKERS:-7} ./check $p 2>&1 | grep -v "note:" | tail -8 | cut -c1-600
+  VERIF_BUDGET=$b VERIF_SEED=${VERIF_SEED:-77} VERIF_WORKERS=${VERIF_WORKERS:-7} ./check $p --tier $tier 2>&1 | grep -v "note:" | tail -8 | cut -c1-700
+  for f in replays/$p-*.json; do [ -f "$f" ] && echo "REPLAY $f" && python3 -c "
+import json,sys;d=json.load(open('$f'));print(d['config'],d['exec_kv']);[print(o) for o in d['ops']]"; done
 done
